@@ -218,3 +218,139 @@ def resolve_variant(body, op):
     if len(vs) == 1:
         return vs.pop()
     return None
+
+
+# ---------------------------------------------------------------------------------------------
+# forward alias tracking ("where does this value go, and what is done with it")
+
+_BENIGN_BINOPS = ("BitAnd", "Eq", "Ne", "Not", "Sub")
+
+
+def only_feeds_ptr_check(body, local):
+    """True when `local` only feeds the compiler-inserted alignment / null-pointer assertion."""
+    work = [local]
+    seen = set()
+    fed = False
+    while work:
+        l = work.pop()
+        if l in seen:
+            continue
+        seen.add(l)
+        for u in uses(body, l):
+            if u[0] == "stmt":
+                s = u[3]
+                r = s["r"] if s["k"] == "assign" else None
+                if r and not s["p"]["p"] and (
+                        (r["k"] in ("binop", "unop") and r.get("op") in _BENIGN_BINOPS)
+                        or (r["k"] == "cast" and r["ck"] in ("Transmute", "PtrToPtr"))):
+                    work.append(s["p"]["l"])
+                else:
+                    return False
+            else:
+                t = u[2]
+                if t["k"] == "assert" and t["msg"] in ("Misaligned", "NullDeref"):
+                    fed = True
+                else:
+                    return False
+    return fed
+
+
+def track(body, seeds, casts=("IntToInt", "PtrToPtr", "PointerCoercion(Unsize)", "PointerCoercion(MutToConstPointer)")):
+    """Follow values forward through copies, reborrows and the listed casts.
+
+    Returns (aliases, sinks): `aliases` = locals holding the value or a reference to it,
+    `sinks` = every other use: ('call', bb, argidx, term) / ('store', bb, idx, stmt) /
+    ('expr', bb, idx, stmt) / ('switch'|'assert'|'drop', bb, term) / ('return', -1).
+    """
+    aliases = set(seeds)
+    sinks = []
+    work = list(seeds)
+    done = set()
+    while work:
+        l = work.pop()
+        if l in done:
+            continue
+        done.add(l)
+        if l == 0:
+            sinks.append(("return", -1))
+        for u in uses(body, l):
+            if u[0] == "stmt":
+                _, bb, idx, s = u
+                if s["k"] != "assign":
+                    continue
+                r = s["r"]
+                dest = s["p"]
+                # store through the tracked pointer:  (*l) = v   /  l.f = v
+                if dest["l"] == l and dest["p"] and l not in rvalue_reads(r):
+                    sinks.append(("store", bb, idx, s))
+                    continue
+                k = r["k"]
+                src_place = None
+                if k == "use":
+                    src_place = op_place(r["op"])
+                elif k in ("ref", "rawptr"):
+                    src_place = r["place"]
+                elif k == "cast" and r["ck"] in casts:
+                    src_place = op_place(r["op"])
+                elif k == "cast" and r["ck"] in ("Transmute", "PtrToPtr") and not dest["p"] and only_feeds_ptr_check(body, dest["l"]):
+                    continue
+                if src_place is not None and src_place["l"] == l and all(e == "*" for e in src_place["p"]) and not dest["p"]:
+                    aliases.add(dest["l"])
+                    work.append(dest["l"])
+                elif k == "agg" and not dest["p"] and r.get("ak") in ("adt", "tuple") and l in rvalue_reads(r):
+                    # wrapped into Ok(..)/Some(..)/tuple: the wrapper carries the value
+                    aliases.add(dest["l"])
+                    work.append(dest["l"])
+                    sinks.append(("wrap", bb, idx, s))
+                else:
+                    sinks.append(("expr", bb, idx, s))
+            else:
+                _, bb, t = u
+                if t["k"] == "call":
+                    for ai, a in enumerate(t["args"]):
+                        p = op_place(a)
+                        if p is not None and p["l"] == l:
+                            sinks.append(("call", bb, ai, t))
+                        elif p is None:
+                            continue
+                    # index projections etc. inside args
+                else:
+                    sinks.append((t["k"], bb, t))
+    return aliases, sinks
+
+
+def const_eval(body, op, depth=0):
+    """Fold an operand to an integer when it is a constant expression over constants
+    (copies, casts, + - * << >> & |, checked-arithmetic tuples)."""
+    if depth > 24:
+        return None
+    k = op_const(op)
+    if k is not None and isinstance(k, dict) and "ty" in k:
+        return const_int(k)
+    p = op_place(op)
+    if p is None:
+        return None
+    proj = p["p"]
+    if proj and not (len(proj) == 1 and isinstance(proj[0], dict) and proj[0].get("f") == 0):
+        return None
+    ds = body.defs(p["l"])
+    if len(ds) != 1 or ds[0][2] != "assign":
+        return None
+    r = ds[0][3]
+    if r["k"] == "use":
+        return const_eval(body, r["op"], depth + 1)
+    if r["k"] == "cast" and r["ck"] == "IntToInt":
+        return const_eval(body, r["op"], depth + 1)
+    if r["k"] == "binop":
+        a = const_eval(body, r["l"], depth + 1)
+        b = const_eval(body, r["r"], depth + 1)
+        if a is None or b is None:
+            return None
+        o = r["op"].replace("WithOverflow", "").replace("Unchecked", "")
+        try:
+            return {"Add": a + b, "Sub": a - b, "Mul": a * b, "Shl": a << b, "Shr": a >> b,
+                    "BitAnd": a & b, "BitOr": a | b, "BitXor": a ^ b,
+                    "Div": a // b if b else None, "Rem": a % b if b else None}.get(o)
+        except Exception:
+            return None
+    return None
